@@ -392,7 +392,39 @@ class C09(E2ECheck):
             'aws-chunked wrapper) x stream scripts (retryable faults at any '
             'byte) x scaled aggregation threshold x schedule; oracle = sum '
             'of bytes_transferred == size on success, running sum within '
-            '[0,size]; non-trivial = >=1 negative callback, or >=2 parts')
+            '[0,size]; plus a unit-level machine driving ReadFileChunk with '
+            'arbitrary read/seek(whence 0,1,2)/enable/disable sequences '
+            'against a reference cursor model; non-trivial = >=1 negative '
+            'callback, or >=2 parts, or a cursor beyond the chunk')
+
+    def strategy(self, tier):
+        from hypothesis import strategies as st
+        from ..units import rfc
+        return st.one_of(super().strategy(tier), super().strategy(tier),
+                         rfc.sequences())
+
+    def execute(self, case):
+        if case.get('kind') == 'rfc':
+            from ..units import rfc
+            viol, info = rfc.run_sequence(case)
+            out = {'violations': [], 'cls': ['rfc'], 'nontrivial': False}
+            if viol:
+                out['violations'].append(('c09:readfilechunk:' + viol[0],
+                                          viol[1]))
+            else:
+                out['nontrivial'] = info['neg'] or info['beyond']
+            return out
+        return super().execute(case)
+
+    def shrink_candidates(self, case):
+        if case.get('kind') == 'rfc':
+            import copy
+            for i in range(len(case['ops']) - 1, -1, -1):
+                c = copy.deepcopy(case)
+                del c['ops'][i]
+                yield c
+            return
+        yield from super().shrink_candidates(case)
 
     def classify(self, R):
         cls = base_classes(R)
